@@ -199,13 +199,15 @@ class LangServer:
         self._load_config_file()
         # Search the root (recursively, see _add_source_dirs) only when no source
         # directories were given, whether on the command line or in the file
-        if not self.source_dirs:
+        search_root = not self.source_dirs
+        if search_root:
             self.source_dirs.add(self.root_path)
         update_recursion_limit(self.recursion_limit)
         self._resolve_globs_in_paths()
         self._config_logger(request)
         self._load_intrinsics()
-        self._add_source_dirs()
+        if search_root:
+            self._add_source_dirs()
         if self._update_version_pypi():
             self.post_message(
                 "Please restart the server for the new version to activate",
@@ -1794,17 +1796,19 @@ class LangServer:
         in the configuration file or no configuration file is present
         """
         # Recursively add sub-directories that only match Fortran extensions
+        # Only the root is searched (and not excluded); it may be a symbolic link,
+        # then source_dirs holds its target
         if len(self.source_dirs) != 1:
-            return None
-        if self.root_path not in self.source_dirs:
             return None
         self.source_dirs = set()
         for root, dirs, files in os.walk(self.root_path):
             # Match not found
             if not list(filter(self.FORTRAN_SRC_EXT_REGEX.search, files)):
                 continue
-            if root not in self.source_dirs and root not in self.excl_paths:
-                self.source_dirs.add(str(Path(root).resolve()))
+            # The excluded paths are resolved ones
+            root = str(Path(root).resolve())
+            if root not in self.excl_paths:
+                self.source_dirs.add(root)
 
     def _get_source_files(self) -> list[str]:
         """Get all the source files present in `self.source_dirs`,
